@@ -41,10 +41,12 @@ CONSTS_USED = []
 SHAPES = [("00", "z"), ("00", "v"), ("10", "z"), ("10", "v"), ("01", "z"), ("01", "r"), ("11", "z"), ("11", "r")]
 
 
-def case_line(T, S, n, sh, path, seed, jit, slow=0, skipext=0, fault="none", hang_ms=2000):
+def case_line(T, S, n, sh, path, seed, jit, slow=0, skipext=0, fault="none", hang_ms=4000, test=0):
     R = (S + T - 1) // T
+    if test:  # Action::Test: one round, one call per thread, whatever the options say
+        R, n = 1, 1
     return (f"T={T} S={S} R={R} n={n} sh={sh} path={path} seed={seed} jit={jit} slow={slow} "
-            f"skipext={skipext} hang_ms={hang_ms} fault={fault}")
+            f"skipext={skipext} hang_ms={hang_ms} test={test} fault={fault}")
 
 
 def corpus_cases():
@@ -115,6 +117,9 @@ def streams(tier, rng):
                 S = T * rng.choice([1, 2])
                 run.append(case_line(T, S, n, sh, path, rng.getrandbits(32), jit, slow=rng.randrange(T),
                                      skipext=rng.randrange(2)))
+    for T in (2, 3, 8):   # Action::Test goes through the same barrier protocol
+        for sh, path in SHAPES[1::2]:
+            run.append(case_line(T, 2 * T, 3, sh, path, rng.getrandbits(32), rng.choice([1, 2, 3, 4]), slow=rng.randrange(T), test=1))
     while len(run) < n_run:
         T = rng.choice([2, 2, 3, 3, 4, 8])
         sh, path = rng.choice(SHAPES)
@@ -144,6 +149,7 @@ def streams(tier, rng):
             pan.append(case_line(T, T, 2, sh, path, rng.getrandbits(32), 1, fault=",".join(f"{t}:0:g:{t % 2}" for t in range(T))))
             pan.append(case_line(T, T, 2, sh, path, rng.getrandbits(32), 1, fault=f"0:0:g:1,{T - 1}:0:c:0"))
             pan.append(case_line(T, 2 * T, 1, sh, path, rng.getrandbits(32), 1, fault=f"{T - 1}:1:g:0,0:1:c:0"))
+            pan.append(case_line(T, T, 1, sh, path, rng.getrandbits(32), 1, fault=f"{T - 1}:0:c:0", test=1))
     if not quick:
         for _ in range(600):
             T = rng.choice([2, 3, 4, 8])
@@ -164,7 +170,7 @@ def streams(tier, rng):
         Stream("round-run", "run", run, nontrivial=nt, model_input=mi, impl_runner=parallel_runner(3),
                impl_timeout=900, hist=hist_of(run),
                describe="real threads, jittered schedules; global log replayed through the extracted step; log_sb + own allocations"),
-        Stream("round-panic", "run", pan, nontrivial=nt, model_input=mi, impl_runner=parallel_runner(4),
+        Stream("round-panic", "run", pan, nontrivial=nt, model_input=mi, impl_runner=parallel_runner(6),
                impl_timeout=900, hist=hist_of(pan),
                describe="panic injected at (thread, round, phase); expected: caller panics for the least faulting thread; hang = failure"),
     ]
